@@ -11,6 +11,10 @@ def run(c):
     ex = lc.run_exhaustive(c, c.pick(["x31_6", "x11_7", "x211f_5"], ["x31_8", "x11_8", "x21_8", "x31f_7", "x211f_6"]), "order-independence",
                            orders=c.pick(3, 4))
     c.guard("model_dags_with_blocks", ex["total"]["dags_with_blocks"])
+    st0 = lc.binding_selftest(c)
+    c.guard("binding_selftest_rejections", len(st0.get("rejected") or []))
+    if st0.get("corruptions") and len(st0["rejected"]) != len(st0["corruptions"]):
+        c.notes.append("binding selftest: corrupted traces accepted: %s" % sorted(set(st0["corruptions"]) - set(st0["rejected"])))
     res = lc.run_profile(c, "c01", c.pick(8, 120), "order-independence")
     st = res["stats"]
     c.guard("blocks", st.get("blocks", 0))
@@ -20,4 +24,4 @@ def run(c):
                      "parents-first orders; (b) seeded random multi-epoch DAGs (3-7 validators, forks < 1/3, lagging/partitioned "
                      "validators), each fed to 4 instances in different orders; every Process call validated against the reference "
                      "specification, whose outputs are a function of the processed set",
-                     extra=dict(exhaustive_part=ex["total"], model_samples=ex["samples"]))
+                     extra=dict(exhaustive_part=ex["total"], model_samples=ex["samples"], binding_selftest=st0))
